@@ -25,8 +25,28 @@ def fn_kind(f, fn_names=None):
     return 'callable'
 
 
-def canon(o, fn_names=None, _seen=None):
-    """Cycle-safe, order-preserving, typed encoding of plain data (JSON-able)."""
+class _TooBig(Exception):
+    pass
+
+
+NODE_BUDGET = 60000
+
+
+def canon(o, fn_names=None):
+    """Cycle-safe, order-preserving, typed encoding of plain data (JSON-able). A value whose expansion exceeds
+    NODE_BUDGET nodes (heavily shared structures such as x = [x, x] repeated 20 times expand exponentially) is encoded
+    as one opaque marker: comparisons on it are then vacuous, never slow."""
+    budget = [NODE_BUDGET]
+    try:
+        return _canon(o, fn_names, None, budget)
+    except _TooBig:
+        return ['huge', type(o).__name__]
+
+
+def _canon(o, fn_names, _seen, budget):
+    budget[0] -= 1
+    if budget[0] < 0:
+        raise _TooBig()
     if o is None or o is True or o is False:
         return o
     t = type(o)
@@ -50,13 +70,13 @@ def canon(o, fn_names=None, _seen=None):
         _seen[id(o)] = len(_seen)
         try:
             if isinstance(o, dict):
-                return ['m', [[canon(k, fn_names, _seen), canon(v, fn_names, _seen)] for k, v in o.items()]]
+                return ['m', [[_canon(k, fn_names, _seen, budget), _canon(v, fn_names, _seen, budget)] for k, v in o.items()]]
             tag = 'l' if isinstance(o, list) else 't'
-            return [tag, [canon(v, fn_names, _seen) for v in o]]
+            return [tag, [_canon(v, fn_names, _seen, budget) for v in o]]
         finally:
             del _seen[id(o)]
     if t is slice:
-        return ['slice', canon(o.start), canon(o.stop), canon(o.step)]
+        return ['slice', _canon(o.start, fn_names, _seen, budget), _canon(o.stop, fn_names, _seen, budget), _canon(o.step, fn_names, _seen, budget)]
     if isinstance(o, BaseException):
         return ['exc', type(o).__name__, norm_msg(str(o))]
     if callable(o):
@@ -73,8 +93,19 @@ def cdigest(o, fn_names=None) -> str:
     return digest(canon(o, fn_names))
 
 
-def snap(o, _seen=None):
+def snap(o):
     """Structure + identity of nested containers (for argument-preservation checks). Hashable tuples."""
+    budget = [NODE_BUDGET]
+    try:
+        return _snap(o, None, budget)
+    except _TooBig:
+        return ('huge', id(o))
+
+
+def _snap(o, _seen, budget):
+    budget[0] -= 1
+    if budget[0] < 0:
+        raise _TooBig()
     if isinstance(o, (list, tuple, dict)):
         if _seen is None:
             _seen = set()
@@ -83,8 +114,8 @@ def snap(o, _seen=None):
         _seen.add(id(o))
         try:
             if isinstance(o, dict):
-                return ('m', id(o), tuple((snap(k, _seen), snap(v, _seen)) for k, v in o.items()))
-            return ('l' if isinstance(o, list) else 't', id(o), tuple(snap(v, _seen) for v in o))
+                return ('m', id(o), tuple((_snap(k, _seen, budget), _snap(v, _seen, budget)) for k, v in o.items()))
+            return ('l' if isinstance(o, list) else 't', id(o), tuple(_snap(v, _seen, budget) for v in o))
         finally:
             _seen.discard(id(o))
     if o is None or isinstance(o, (bool, int, float, str, Decimal)):
